@@ -23,9 +23,14 @@ def gen_inputs(ctx):
         crossing = [(6, 10), (28, 36), (98, 102)] + [rng.choice(crossing)]
     n = 0
     for net in ("main", "test"):
-        for k in range(3 if q else 30):
+        for k in range(4 if q else 30):
             if k < 3:
                 src = {"mnemonic": T(MNEMONICS[k]), "password": T(["", " padded pass \t", "pässwörd"][k])}
+            elif k == 3 or (k == 5 and not q):
+                # text that looks like the structure of the rendering itself (brackets with blanks inside, quotes,
+                # backslashes, line breaks): the JSON text must still parse back to exactly these strings
+                src = {"mnemonic": T(MNEMONICS[0] if k == 3 else "[ legal ]  winner { thank } year"),
+                       "password": T('[ a ] { "k" : [ 1 , 2 ] } \\ "q" ,\n\t: [\n    x\n]')}
             else:
                 src = {"seed": B(bytes(rng.randrange(256) for _ in range(rng.choice([16, 32, 64])))), "mnemonic": T(""), "password": T("")}
             combos = [(rng.choice(accounts), rng.choice(intervals)) for _ in range(3 if q else 4)]
@@ -38,7 +43,7 @@ def gen_inputs(ctx):
             if k == 1 or (not q and k == 4):
                 combos += [(rng.choice([0, 1, 66]), iv) for iv in (crossing if net == "main" or not q else crossing[:2])]
             for acct, (st, en) in combos:
-                inp = dict(src, net=net, account=acct, start=B(st.to_bytes(5, 'big')), end=B(en.to_bytes(5, 'big')), json=(k < 3 and n % 2 == 0))
+                inp = dict(src, net=net, account=acct, start=B(st.to_bytes(5, 'big')), end=B(en.to_bytes(5, 'big')), json=([True, 4, 2, 1][n % 4] if ("mnemonic" in src and len(src["mnemonic"]) > 0 and n % 2 == 0) else False))
                 n += 1
                 out.append(("Generate", inp, ("generate", net, acct in (0, 2 ** 31 - 1), max(0, en - st), st > en, "seed" in src)))
             out.append(("Wasabi", dict(src, net=net), ("wasabi", net)))
@@ -47,7 +52,7 @@ def gen_inputs(ctx):
     from .. import refprims as R, refwallet as W
     found = {"nibble": 0, "byte": 0}
     k = 0
-    while (found["nibble"] < 3 or (not q and found["byte"] < 1)) and k < (600 if q else 6000):
+    while (found["nibble"] < 3 or found["byte"] < (1 if q else 3)) and k < (3000 if q else 20000):
         seed = bytes([k & 255, k >> 8]) + bytes(14)
         k += 1
         rn = W.master(R.Table(), seed, "main")
